@@ -122,8 +122,32 @@ def _parse_ok(ix) -> bool:
     try:
         trees = list(itertools.islice(PARSER.parse(s), 3))
     except SyntaxError:
-        return not member
-    return member and len(trees) >= 1 and all(_check_tree(t, s, ENTRY) for t in trees)
+        ok = not member
+    else:
+        ok = member and len(trees) >= 1 and all(_check_tree(t, s, ENTRY) for t in trees)
+    if not ok:
+        return False
+    # call history on the SAME parser object: a (failing or only partially consumed) parse_on for another nonterminal must not
+    # change what a following parse() decides
+    for nt in G:
+        try:
+            first = next(PARSER.parse_on(s, nt), None)
+            if first is not None and not derives(nt, s):
+                raise AssertionError("parse_on(%r, %s) returned a tree although the string is not in L(%s)" % (s, nt, nt))
+        except SyntaxError:
+            if derives(nt, s):
+                raise AssertionError("parse_on(%r, %s) raised SyntaxError although the string is in L(%s)" % (s, nt, nt))
+        try:
+            again = next(iter(PARSER.parse(s)), None)
+            got = again is not None
+        except SyntaxError:
+            got = False
+        if got != member:
+            raise AssertionError("after parse_on(%r, %s) the same parser object %s %r, membership in L(%s) is %s" % (
+                s, nt, "accepts" if got else "rejects", s, ENTRY, member))
+        if got and not _check_tree(again, s, ENTRY):
+            raise AssertionError("after parse_on(%r, %s) parse() returned a tree that is not rooted at %s / does not spell the input" % (s, nt, ENTRY))
+    return True
 
 
 def _solver_parse_ok(ix) -> bool:
